@@ -237,18 +237,11 @@ func runC12With(t *testing.T, c simrt.Chooser, o Opts, forcedStep int, block int
 		if late := cr.ReturnT - cr.Res.SigTime; late > bound {
 			out.violate("C12.slow-return", sig, "argv %v: Ctrl-C at t=%v (step %d), the command returned %v later (bound %v: longest stall / limiter interval in flight)", w.Argv, cr.Res.SigTime, cr.Res.SigStep, late, bound)
 		}
-		// (the generator loops run through the rest of the range after a cancel without sending
-		// anything: a few scheduling steps per remaining target and pipeline stage, whatever the
-		// channel capacities are)
-		nTargets := 0
-		if ps != nil {
-			nTargets = ps.Spec.nprobes()
-		} else if sc.App != nil {
-			nTargets = sc.App.Spec.nprobes()
-		}
-		if extra := cr.Res.Steps - cr.Res.SigStep; extra > 4000+40*cr.Res.MaxG+40*nTargets {
-			out.violate("C12.slow-return", sig+"/steps", "argv %v: %d scheduling steps between Ctrl-C and return", w.Argv, extra)
-		}
+		// (No bound on the number of scheduling steps after the cancel: how much bookkeeping the
+		// program does on its way out - generator loops running through the rest of the range,
+		// remaining port chunks opening and closing their sockets - is not part of the property;
+		// a program that never gets there hits the step cap and is reported as no-return.)
+		out.Stats["steps-after-cancel"] += cr.Res.Steps - cr.Res.SigStep
 	}
 	// everything written is a sequence of complete records
 	lines, complete := stdoutLines(cr.Stdout)
